@@ -18,15 +18,18 @@ Proved here:
 
 PARTIAL / NOT DONE (of the passes asked for):
  * `dbe` (first version) does not descend into lambda bodies; `simplify` (second part of this file) does.
- * the converse termination direction (`dbe e` finishes ⇒ `e` finishes) is not proved; `dbe_outcomes_agree` covers the
-   agreement when both finish.
- * constant folding of primitive applications, the unit-local inliner and closure lifting on `Core` are NOT done: each
-   needs (i) an invariant "the primitive / inlined global slots are not assigned by any code reachable from the state"
-   over all closure values of the state (the semantic counterpart of `C09C.T.Inv`), (ii) the value correspondence above.
+ * constant folding: DONE (`fold_preserves_partial`, guard = protected-slot invariant; `fold_needs_guard` outside it);
+   backward direction for `dbe`: DONE (`dbe_backward`, `dbe_equiv`); backward direction for the deep passes: not done.
+ * the unit-local inliner and closure lifting on `Core` are NOT done as passes.  What exists for them: the guard
+   (`protected_slots_stable`), the conditional congruence (`deepQ_all`: any rewrite locally sound while the protected
+   slots hold what the table says), the K02a witness outside the guard.  Missing: the frame-extension lemma for an
+   inlined body (`shift` of local offsets, `let_` of the operands) and, for lifting, fresh-slot reasoning.
 -/
 import SteelVerif.C02.CorePassDbe
 import SteelVerif.C02.CorePassLocal
 import SteelVerif.C02.CoreStable2
+import SteelVerif.C02.CorePassFold
+import SteelVerif.C02.CorePassDbeBack
 namespace SteelVerif.C02C
 open SteelVerif.C01C
 
@@ -275,5 +278,125 @@ theorem okSt_prims (ps : List Nat) : OkSt ps (⟨[], primGlobals⟩ : St Core) :
 -- the primitives are untouched by `simplEx`; unit 2 of the K02a witness is outside the guard for slot 20
 example : simplEx.all (noAssign [0, 1, 2, 3, 4, 5]) = true := by decide
 example : unit2.all (noAssign [20]) = false := by decide
+
+/-! ## Constant folding of primitive applications (guarded by the protected-slot invariant) -/
+
+/-- Generic: a rewrite that is locally sound in the states satisfying `Q` (a predicate determined by the protected
+slots), applied everywhere, preserves the semantics of a top-level form that assigns no protected slot, from a state
+none of whose closures does. -/
+theorem deepQ_sound_top (rw : Core → Core) (ps : List Nat) (Q : St Core → Prop) (hk : QOk ps Q rw) (fuel : Nat)
+    (e : Core) (σ : St Core) (r : Res (Val × St Core)) (h : evalTop fuel e σ = r) (hr : r ≠ .timeout)
+    (hn : noAssign ps e = true) (hst : OkSt ps σ) (hq : Q σ) :
+    evalTop fuel (deep rw e) (mS rw σ) = r.map (fun p => (mV rw p.1, mS rw p.2)) := by
+  unfold evalTop at h ⊢
+  cases he : evalC fuel none false e [] [] σ with
+  | timeout => rw [he] at h; simp [Res.map] at h; exact absurd h.symm hr
+  | err x =>
+    have := (deepQ_all rw ps Q hk fuel).1 none false e [] [] σ _ he (by simp) hn trivial OkL.nil OkL.nil hst hq
+    simp only [mSelf, List.map_nil] at this
+    rw [this]; rw [he] at h; subst h; simp [mR3, Res.map]
+  | ok x =>
+    have := (deepQ_all rw ps Q hk fuel).1 none false e [] [] σ _ he (by simp) hn trivial OkL.nil OkL.nil hst hq
+    simp only [mSelf, List.map_nil] at this
+    rw [this]; rw [he] at h; subst h; simp [mR3, Res.map]
+
+/-- … and of a whole unit none of whose forms assigns a protected slot. -/
+theorem deepQ_sound_program (rw : Core → Core) (ps : List Nat) (Q : St Core → Prop) (hk : QOk ps Q rw) (fuel : Nat) :
+    ∀ (es : List Core) (σ : St Core) (vs : List Val) (σ' : St Core), evalProgram fuel es σ = .ok (vs, σ') →
+    (∀ e, e ∈ es → noAssign ps e = true) → OkSt ps σ → Q σ →
+    evalProgram fuel (es.map (deep rw)) (mS rw σ) = .ok (mL rw vs, mS rw σ') := by
+  intro es
+  induction es with
+  | nil => intro σ vs σ' h _ _ _; simp [evalProgram] at h ⊢; obtain ⟨rfl, rfl⟩ := h; simp
+  | cons e rest ih =>
+    intro σ vs σ' h hn hst hq
+    simp only [evalProgram] at h
+    cases h1 : evalTop fuel e σ with
+    | err k => simp [h1] at h
+    | timeout => simp [h1] at h
+    | ok p =>
+      obtain ⟨v, σ1⟩ := p
+      simp only [h1] at h
+      cases h2 : evalProgram fuel rest σ1 with
+      | err k => simp [h2, Res.map] at h
+      | timeout => simp [h2, Res.map] at h
+      | ok q =>
+        obtain ⟨vs', σ2⟩ := q
+        simp only [h2, Res.map, Res.ok.injEq, Prod.mk.injEq] at h
+        obtain ⟨rfl, rfl⟩ := h
+        have a := deepQ_sound_top rw ps Q hk fuel e σ _ h1 (by simp) (hn e (by simp)) hst hq
+        obtain ⟨s1, s2, _⟩ := protected_slots_stable ps fuel e σ σ1 v h1 (hn e (by simp)) hst
+        have b := ih σ1 vs' σ2 h2 (fun e' he' => hn e' (List.mem_cons_of_mem _ he')) s2 (hk.same _ _ s1 hq)
+        simp only [List.map_cons, evalProgram, a, Res.map, b]
+
+/-- **Constant folding preserves the semantics** (`_partial`: the exact guard is — the form assigns none of the folded
+primitive slots, no closure reachable from the state does, and the slots hold their primitives).  Values, final store
+and globals up to `V.map (foldPass tbl)`, error kinds equal, same fuel.  A fold that would raise is not folded, so the
+error is raised at run time exactly as before. -/
+theorem fold_preserves_partial (tbl : List (Nat × Prim)) (fuel : Nat) (e : Core) (σ : St Core)
+    (r : Res (Val × St Core)) (h : evalTop fuel e σ = r) (hr : r ≠ .timeout)
+    (hn : noAssign (tbl.map (·.1)) e = true) (hst : OkSt (tbl.map (·.1)) σ) (hq : PrimQ tbl σ) :
+    evalTop fuel (foldPass tbl e) (mS (rwFold tbl) σ) =
+      r.map (fun p => (mV (rwFold tbl) p.1, mS (rwFold tbl) p.2)) :=
+  deepQ_sound_top (rwFold tbl) _ (PrimQ tbl) (primQ_ok tbl) fuel e σ r h hr hn hst hq
+
+/-- Whole units from the primitives-only state, down to the VM: the compiled code of the folded unit yields the values
+the semantics gives the original unit. -/
+theorem fold_then_compile_program (fuel : Nat) (es : List Core) (vs : List Val) (σ' : St Core)
+    (h : evalProgram fuel es ⟨[], primGlobals⟩ = .ok (vs, σ'))
+    (hn : ∀ e, e ∈ es → noAssign (primTbl.map (·.1)) e = true) :
+    ∃ n, runProgram n ((es.map (foldPass primTbl)).map compileTop) (toSt ⟨[], primGlobals⟩) =
+      .ok ((mL (rwFold primTbl) vs).map toV, toSt (mS (rwFold primTbl) σ')) := by
+  have a := deepQ_sound_program (rwFold primTbl) _ (PrimQ primTbl) (primQ_ok primTbl) fuel es _ vs σ' h hn
+    (okSt_prims _) primQ_init
+  have hp : mS (rwFold primTbl) (⟨[], primGlobals⟩ : St Core) = ⟨[], primGlobals⟩ := by
+    simp [mS, mapSt, primGlobals]
+  rw [hp] at a
+  exact compile_correct_program fuel _ _ _ _ a
+
+/-! ### Non-vacuity -/
+
+/-- `(define (f x) (* x (+ 1 2)))`, `(f 14)`; and `(+ 1 #t)`, which is NOT folded and still raises a type error. -/
+def foldEx : List Core :=
+  [.define 20 (.lam 1 false [] (.callG 2 [.loc 0 true, .callG 0 [.const (.int 1), .const (.int 2)]])),
+   .callG 20 [.const (.int 14)]]
+example : foldEx.map (foldPass primTbl) =
+    [.define 20 (.lam 1 false [] (.callG 2 [.loc 0 true, .const (.int 3)])), .callG 20 [.const (.int 14)]] := rfl
+example : foldEx.all (noAssign (primTbl.map (·.1))) = true := by decide
+example : (match evalProgram 10 (foldEx.map (foldPass primTbl)) ⟨[], primGlobals⟩ with
+    | .ok (vs, _) => vs.map V.toInt? | _ => []) = [none, some 42] := by decide
+example : foldPass primTbl (.callG 0 [.const (.int 1), .const (.bool true)]) =
+    .callG 0 [.const (.int 1), .const (.bool true)] := rfl
+example : (match evalTop 10 (foldPass primTbl (.callG 0 [.const (.int 1), .const (.bool true)])) ⟨[], primGlobals⟩ with
+    | .err k => some k | _ => none) = some .type := by decide
+
+/-- Witness OUTSIDE the guard: a unit that rebinds `+` (`(define + -)`) and then computes `(+ 5 2)`: the original yields
+3, the folded program 7.  The form `(define + -)` fails `noAssign`. -/
+def foldBad : List Core := [.define 0 (.glob 1), .callG 0 [.const (.int 5), .const (.int 2)]]
+theorem fold_needs_guard :
+    foldBad.all (noAssign (primTbl.map (·.1))) = false ∧
+    lastInt (evalProgram 10 foldBad ⟨[], primGlobals⟩) = some 3 ∧
+    lastInt (evalProgram 10 (foldBad.map (foldPass primTbl)) ⟨[], primGlobals⟩) = some 7 := by decide
+
+/-! ## Dead-branch elimination, backward direction -/
+
+/-- **If the optimised program finishes, so does the original, with the same outcome** — with `slack e` more fuel (the
+number of eliminated constant tests nested along a path). -/
+theorem dbe_backward (fuel : Nat) (e : Core) (σ : St Core) (r : Res (Val × St Core))
+    (h : evalTop fuel (dbe e) σ = r) (hr : r ≠ .timeout) : evalTop (fuel + slack e) e σ = r := by
+  unfold evalTop at h ⊢
+  cases he : evalC fuel none false (dbe e) [] [] σ with
+  | timeout => rw [he] at h; simp [Res.map] at h; exact absurd h.symm hr
+  | err x => rw [dbe_back e fuel none false [] [] σ _ he (by simp)]; rw [he] at h; exact h
+  | ok x => rw [dbe_back e fuel none false [] [] σ _ he (by simp)]; rw [he] at h; exact h
+
+/-- **Dead-branch elimination is an equivalence**: for every outcome `r` (a value with its final state, or an error of
+some kind), the original program yields `r` for some fuel iff the optimised program does; in particular one diverges
+(runs out of every fuel) iff the other does. -/
+theorem dbe_equiv (e : Core) (σ : St Core) (r : Res (Val × St Core)) (hr : r ≠ .timeout) :
+    (∃ F, evalTop F e σ = r) ↔ (∃ F, evalTop F (dbe e) σ = r) :=
+  ⟨fun ⟨F, h⟩ => ⟨F, dbe_preserves F e σ r h hr⟩, fun ⟨F, h⟩ => ⟨F + slack e, dbe_backward F e σ r h hr⟩⟩
+
+example : slack dbeEx = 1 := by decide
 
 end SteelVerif.C02C
